@@ -19,6 +19,9 @@ def check(ctx):
   ctx.rule('C04.R5', 'who may write node.load, and by how much: Node.__init__ (initial), dispatch (+1), selection (-/+ Penalty), release (-1, clamp)')
   ctx.decline('equality with a reference count over all histories (the induction) is not decided; pairing, idempotence and unit steps (the inductive step) are')
   r1_r2(ctx)
+  from . import c12
+  ctx.rule('C12.R2', 'shared with C12: the balancer charges a member only for a call that can still complete (timeout event absent or not set)')
+  c12.gate_direct(ctx)
   r3(ctx)
   r4(ctx)
   r5(ctx)
